@@ -183,6 +183,14 @@ def mapDirect [DecidableEq R] (slv : Solver R) (A : NArr R) (rangeDim domainDim 
   let CxAts ← Cx.matmul Ats
   x0.add CxAts
 
+/-- `BayesianProblem.MAP(disp, x0)` on the direct route.  The method's parameter `x0` (the user's
+    initial guess for the *solver*) is overwritten by `x0 = self.prior.mean` (l.268) before anything
+    reads it: the closed form takes the prior mean from the prior; `disp` only prints. -/
+def mapMethod [DecidableEq R] (slv : Solver R) (disp : Bool) (userX0 : Option (NArr R)) (A : NArr R)
+    (rangeDim domainDim : Nat) (ce cx : Option (NArr R)) (priorMean b : NArr R) : Except Err (NArr R) :=
+  let x0 := priorMean
+  mapDirect slv A rangeDim domainDim ce cx x0 b
+
 /-! ## entry-level algebra used by the statements (and by the reference computation) -/
 
 /-- `(M x)_i` for an `· × k` matrix -/
@@ -326,6 +334,10 @@ structure OptProblem (X R : Type) where
 def solveMaxPointProblem {X : Type} (logd : X → R) (grad : Option (X → X)) (negX : X → X) (x0 : X) :
     OptProblem X R :=
   { func := fun x => -(logd x), gradfunc := grad.map (fun g => fun x => negX (g x)), x0 := x0 }
+
+/-- `_solve_max_point`: `if x0 is None: x0 = np.ones(self.model.domain_dim)` — on the optimisation
+    route the user's `x0` is the start point of the solver (and only that) -/
+def startPoint {X : Type} (userX0 : Option X) (ones : X) : X := userX0.getD ones
 
 /-- the wrappers return SciPy's `x` (`solution['x']` / `solution[0]`) untouched -/
 def wrapperResult {X : Type} (scipyX : X) : X := scipyX
